@@ -48,7 +48,7 @@ theorem c25_unchecked_assertions :
       "handler1.go:handleMqttSn:*mqPkts.PubrelPacket",
       "handler1.go:handleSubscribe:*mqPkts.SubscribePacket",
       "handler1.go:handleUnsubscribe:*mqPkts.UnsubscribePacket",
-      "handler1.go:startSleepPinger:*mqPkts.PingreqPacket"] ∧
+      "handler1.go:pingBroker:*mqPkts.PingreqPacket"] ∧
     Gen.uncheckedAsserts_client = [
       "disconnect_transaction.go:newDisconnectTransaction:pkts.Packet",       -- resend callbacks: Data is the packet passed to Proceed
       "ping_transaction.go:newPingTransaction:pkts.Packet",
